@@ -34,7 +34,7 @@ def units_for(pid):
         lines = read_template(p)
         txt = '\n'.join(lines)
         tags = set()
-        for m in re.finditer(r'^\s*//@\s*(?:default|requires|ensures|loop\s+\d+\s+\w+)\s*\[([^\]]*)\]', txt, re.M):
+        for m in re.finditer(r'^\s*//@\s*(?:default|requires|ensures|lemma|loop\s+\d+\s+\w+)\s*\[([^\]]*)\]', txt, re.M):
             tags.update(t for t in re.split(r'[ ,]+', m.group(1)) if t)
         if pid in tags or pid == 'ALL':
             modes = [False]
@@ -456,6 +456,16 @@ class UnitRun:
             if re.match(r'^(pub )?(async )?fn ', lines[j].strip()) and j != k and not lines[j].startswith(' '):
                 break
         return name
+
+
+def unit_lemmas(tpath):
+    """`//@lemma [TAGS] name` lines of a template: pure proof fns that carry a property (no code extracted)."""
+    out = []
+    for ln in read_template(tpath):
+        m = re.match(r'^\s*//@lemma\s*\[([^\]]*)\]\s*(\w+)', ln)
+        if m:
+            out.append((m.group(2), [t for t in re.split(r'[ ,]+', m.group(1)) if t]))
+    return out
 
 
 def load_known():
